@@ -46,7 +46,9 @@ def to_shape(region: GridRegion, typ="frac", order=None):
 
 
 def q(p, typ):
-    """query point in the library's coordinates"""
+    """query point in the library's coordinates (int-typed shapes are queried with exact Fractions)"""
+    if typ == "int":
+        return (Fraction(p[0]) * SCALE[typ], Fraction(p[1]) * SCALE[typ])
     return (cast(p[0], typ), cast(p[1], typ))
 
 
